@@ -582,7 +582,13 @@ func (w *c12World) runCase() string {
 			verifkit.Class("fail-" + s.Fail)
 			w.nonTrivial = w.nonTrivial || s.Fail != "copy-read"
 		}
-		if s.Fail == "update-tier+rollback" || crashedAny {
+		if s.Fail == "update-tier+rollback" {
+			// double fault: the failed rollback leaves a cold orphan that only a
+			// later SUCCESSFUL migration of the file overwrites; until the clean
+			// cycle no faulty step's reconcile-only oracle applies any more
+			crashedAny = true
+		}
+		if crashedAny {
 			continue // a second fault / an unfinished crashed migration: only the clean cycle settles it
 		}
 		// the migration RETURNED (with or without a step failure): reconciliation alone must settle it
